@@ -224,7 +224,7 @@ var mvccThroughExecutor = sync.OnceValue(func() bool {
 
 // txSpec is the plain-data rendering of a generated transaction (also what a replay file shows).
 type txSpec struct {
-	Kind    string   `json:"kind"`              // transfer | toexec | withdraw | none | modify | apply | group
+	Kind    string   `json:"kind"`              // transfer | toexec | withdraw | none | modify | apply | vlocal | group
 	From    int      `json:"from"`              // index into keys
 	To      int      `json:"to,omitempty"`      // transfer, none: index into poolAddrs; len(poolAddrs)+i = address of execNames[i]
 	Exec    string   `json:"exec,omitempty"`    // toexec, withdraw
@@ -233,6 +233,7 @@ type txSpec struct {
 	Key     string   `json:"key,omitempty"`     // manage
 	Op      string   `json:"op,omitempty"`      // manage
 	Value   string   `json:"value,omitempty"`   // manage
+	Ops     []vop    `json:"ops,omitempty"`     // vlocal: local operations (see vlocal_test.go)
 	Members []txSpec `json:"members,omitempty"` // group
 }
 
@@ -275,6 +276,9 @@ func (n *node) rawTx(s txSpec) *types.Transaction {
 		tx.Execer, tx.To = []byte("manage"), address.ExecAddress("manage")
 		tx.Payload = types.Encode(&mty.ManageAction{Ty: mty.ManageActionApplyConfig,
 			Value: &mty.ManageAction_Apply{Apply: &mty.ApplyConfig{Config: &types.ModifyConfig{Key: s.Key, Op: s.Op, Value: s.Value}}}})
+	case "vlocal":
+		tx.Execer, tx.To = []byte(vlocalName), address.ExecAddress(vlocalName)
+		tx.Payload = vlocalPayload(s.Ops)
 	default:
 		fixturef("unknown tx kind %q", s.Kind)
 	}
@@ -472,6 +476,7 @@ func newUniverse() *universe {
 	for i := 0; i < nTargets(); i++ {
 		u.addrs = append(u.addrs, targetAddr(i))
 	}
+	u.addrs = append(u.addrs, address.ExecAddress(vlocalName))
 	return u
 }
 
@@ -557,6 +562,24 @@ func (n *node) snap(u *universe) snapshot {
 				&mty.ReqQueryConfigList{Proposer: a, Status: status, Count: 100, Direction: 0})
 		}
 	}
+	// the synthetic executor's local data: its two queries over the whole (small) key space and a dump of its prefix
+	for _, k := range vKeys {
+		s["vlocal:get:"+k] = query(vlocalName, "Get", &types.ReqString{Data: k})
+	}
+	s["vlocal:rows"] = query(vlocalName, "List", &types.ModifyConfig{Key: "primary"})
+	for _, c := range vColors {
+		s["vlocal:rows-by-val:"+c] = query(vlocalName, "List", &types.ModifyConfig{Key: "val", Value: c})
+	}
+	for _, a := range poolAddrs {
+		s["vlocal:rows-by-owner:"+a] = query(vlocalName, "List", &types.ModifyConfig{Key: "owner", Value: a})
+	}
+	var dump strings.Builder
+	it := n.db.Iterator([]byte("LODB-"+vlocalName+"-"), nil, false)
+	for it.Rewind(); it.Valid(); it.Next() {
+		fmt.Fprintf(&dump, "%q=%x\n", it.Key(), it.Value())
+	}
+	it.Close()
+	s["vlocal:dump"] = obs{dump.String(), dump.String()}
 	for _, a := range u.hot {
 		s["overview:"+a] = render(n.api.GetAddrOverview(&types.ReqAddr{Addr: a}))
 		s["api-addrtx:"+a] = render(n.api.GetTransactionByAddr(&types.ReqAddr{Addr: a, Flag: 0, Count: 1000, Direction: 0, Height: -1}))
